@@ -756,12 +756,10 @@ impl<H: DnsHandle> DnssecDnsHandle<H> {
                 }
             }
             Ok(response) => {
-                if !response
-                    .answers
-                    .iter()
-                    .any(|r| r.record_type() == RecordType::DS)
-                    && ds_denial_is_at_delegation(&zone, &response)
-                {
+                // Only a negative response can deny the DS RRset. An answer section with other
+                // records (a CNAME at the name, which sub-queries do not validate and which cannot
+                // exist at a delegation point anyway) proves nothing about the delegation.
+                if response.answers.is_empty() && ds_denial_is_at_delegation(&zone, &response) {
                     debug!(
                         %zone,
                         "marking zone as insecure based on secure NSEC/NSEC3 proof or insecure parent zone",
